@@ -290,3 +290,25 @@ Proof.
   intros H. rewrite (run_repeat m k v 1 120 120 H).
   apply (repeat_out_silent 120 119 1); lia.
 Qed.
+
+(* ---------- monitor-loop level ---------- *)
+Lemma firstn_map' {X Y} (f : X -> Y) n l : firstn n (map f l) = map f (firstn n l).
+Proof. revert l; induction n as [|n IH]; intros [|x t]; cbn [firstn map]; try reflexivity. f_equal. apply IH. Qed.
+
+Lemma poll_error_last_20_failed ps :
+  cur (state_after_polls ss_new ps) = Error ->
+  (20 <= length ps)%nat /\ Forall (fun p => poll_ok p = false) (firstn 20 (rev ps)).
+Proof.
+  unfold state_after_polls. intros H. apply error_last_20_failed in H as [Hl Hf].
+  rewrite map_length in Hl. split; [exact Hl|].
+  rewrite <- map_rev, firstn_map' in Hf. rewrite Forall_map in Hf. exact Hf.
+Qed.
+
+Lemma healthy_poll_never_error s : cur (poll_step s PollHealthy) <> Error.
+Proof. exact (success_never_error s). Qed.
+
+Lemma two_healthy_polls s : cur (poll_step (poll_step s PollHealthy) PollHealthy) = Success.
+Proof. exact (two_successes s). Qed.
+
+Lemma default_is_new : ss_default = ss_new.
+Proof. reflexivity. Qed.
